@@ -20,6 +20,7 @@ DEFAULT_OPTS = dict(
     ints=INT_PACKED + INT_ODD, floats=True, char=True, wchar=True, leb=True, void=True, enums=True, bits=True,
     arrays=True, expr=True, null=True, eof=True, pointers=True, nested=True, unions=True, anon=True,
     max_depth=2, max_fields=6, dynamic=True, hazard=True, multidim=True, struct_arrays=True, zero_len=True,
+    mixed_align=False,
 )
 
 
@@ -121,7 +122,11 @@ def _elem_type(draw, o, defs, names, depth, for_null=False):
             choices.append("union")
     if o["pointers"] and not for_null:
         choices.append("ptr")
+    if o.get("refs") and not for_null and (o["dynamic"] or all(Sem(defs, {"endian": "<"}).size({"k": "ref", "n": r}) is not None for r in o["refs"])):
+        choices += ["ref"] * 4
     c = draw(st.sampled_from(choices))
+    if c == "ref":
+        return {"k": "ref", "n": draw(st.sampled_from(o["refs"]))}
     if c == "int":
         return S(int_scalar(draw, o))
     if c == "float":
@@ -272,6 +277,15 @@ def definition(draw, o=None, root_kind="struct"):
     o = o or opts()
     names = NameSrc(o["hazard"])
     defs = []
+    if o.get("mixed_align") and "align_hint" in o and draw(st.integers(0, 3)) == 0:
+        # a named structure loaded with the OTHER alignment mode (its own load() call) and used as a member
+        io = dict(o)
+        io.update(max_depth=0, max_fields=4, anon=False, eof=False, refs=None, mixed_align=False)
+        inner = draw(struct_type(io, defs, names, 0, kind="struct", name=None))
+        inner["align"] = not o["align_hint"]
+        defs.append({"k": "structdef", "n": "Foreign", "t": inner})
+        o = dict(o)
+        o["refs"] = ["Foreign"]
     root = draw(struct_type(o, defs, names, o["max_depth"], kind=root_kind, name=None, top=True))
     root["name"] = None
     defs.append({"k": "structdef", "n": "Root", "t": root})
